@@ -6,6 +6,8 @@ Spec:  XV.Spec.Utf8  (Unicode Tables 3-6 / 3-7, D91).
 import XV.Lemmas.Utf8
 import XV.Lemmas.ByteCodec2
 import XV.Lemmas.Recognizer
+import XV.Lemmas.Ascii
+import XV.Lemmas.AsciiReader
 import XV.Lemmas.ByteTableWin1252
 import XV.Lemmas.ByteTableEbcdic037
 import XV.Lemmas.ByteTableIbm1047
@@ -165,6 +167,135 @@ theorem latin1_roundtrip (cs : List Nat) (h : ∀ c ∈ cs, c < 256) (m : Nat) (
   XV.Lemmas.ByteCodec.latin1_roundtrip cs h m hm thr
 end Fixed
 
+/-! ### US-ASCII (XMLASCIITranscoder) -/
+section Ascii
+open XV.Model.ByteCodec XV.Model.CodecStream XV.Spec.Ascii XV.Lemmas.Ascii
+
+/-- One `transcodeFrom` call (block semantics).  A normal return delivers exactly the first `e` source
+bytes, unchanged, one character per byte, all of them legal, `bytesEaten` = number of characters; it
+stops short of `min maxChars srcCount` only directly in front of an illegal byte and only when more than
+32 characters are already done (the deferred error).  A throw happens only for an illegal byte at an
+index ≤ 32 of the block. -/
+theorem ascii_block_exact (src : List Nat) (m : Nat) :
+    (∀ o sz e, asciiFrom src m = .ok o sz e →
+        o = src.take e ∧ sz = List.replicate e 1 ∧ e ≤ min m src.length ∧ AllLegal o ∧
+        (e < min m src.length → 32 < e ∧ ¬ legal (src.getD e 0))) ∧
+    (∀ n, asciiFrom src m = .exc n →
+        n = "Trans_Unrepresentable" ∧ ∃ i, i ≤ 32 ∧ i < min m src.length ∧ AllLegal (src.take i) ∧ ¬ legal (src.getD i 0)) := by
+  rcases split src with hs | ⟨g, b, r, rfl, hg, hb⟩
+  · rw [block_good src m hs]
+    refine ⟨?_, fun n h => by cases h⟩
+    intro o sz e h
+    cases h
+    exact ⟨rfl, rfl, Nat.le_refl _, fun x hx => hs x (List.mem_of_mem_take hx), fun h => absurd h (Nat.lt_irrefl _)⟩
+  · have hget : (g ++ b :: r).getD g.length 0 = b := by simp [List.getD_eq_getElem?_getD]
+    have hlen : (g ++ b :: r).length = g.length + (r.length + 1) := by simp
+    by_cases hm : m = 0
+    · subst hm
+      rw [asciiFrom_eq]
+      simp only [List.take_zero, asciiFrom.go]
+      refine ⟨?_, fun n h => by cases h⟩
+      intro o sz e h
+      cases h
+      refine ⟨?_, ?_, ?_, ?_, ?_⟩
+      · simp
+      · simp
+      · simp
+      · intro x hx; exact absurd hx List.not_mem_nil
+      · intro h; simp at h
+    · rcases block_bad g b r m hg hb (by omega) with ⟨hexc, h32, hlt⟩ | ⟨e, _, heg, hem, hdef, hok⟩
+      · rw [hexc]
+        constructor
+        · intro o sz e h; cases h
+        intro n h
+        cases h
+        refine ⟨rfl, g.length, h32, by omega, ?_, by rw [hget]; exact hb⟩
+        rw [List.take_left']; exact hg; rfl
+      · rw [hok]
+        refine ⟨?_, fun n h => by cases h⟩
+        intro o sz e' h
+        cases h
+        refine ⟨by rw [List.take_append_of_le_length heg], rfl, by omega,
+          fun x hx => hg x (List.mem_of_mem_take hx), fun hlt => ?_⟩
+        have : e < m := by omega
+        obtain ⟨h1, h2⟩ := hdef this
+        subst h1
+        exact ⟨h2, by rw [hget]; exact hb⟩
+
+/-- Whole-input decoding (repeated calls on the unconsumed rest, any buffer size `blk ≥ 1` and room
+`m ≥ 1` per call), judged by the Spec.  If every byte is legal the stream delivers exactly the input.
+Otherwise, with `off` the Spec's offset of the first illegal byte, the stream ends with the exception,
+raised by the call that started at byte offset `pos` with `pos ≤ off ≤ pos + 32`, and what was delivered
+before is exactly the first `pos` bytes: delivered characters and error position account for every input
+byte up to the illegal one — no byte is skipped, none behind the illegal byte is delivered. -/
+theorem ascii_decode_exact (src : List Nat) (blk m : Nat) (hblk : 1 ≤ blk) (hm : 1 ≤ m) :
+    (∀ cs, XV.Spec.Ascii.decode src = (cs, none) → cs = src ∧ asciiStream blk m src = .done src) ∧
+    (∀ cs off, XV.Spec.Ascii.decode src = (cs, some off) →
+        cs = src.take off ∧ off < src.length ∧ ¬ legal (src.getD off 0) ∧
+        ∃ pos, pos ≤ off ∧ off ≤ pos + 32 ∧
+          asciiStream blk m src = .exc (src.take pos) pos "Trans_Unrepresentable") := by
+  rcases split src with hs | ⟨g, b, r, rfl, hg, hb⟩
+  · rw [decode_legal src hs]
+    refine ⟨?_, fun cs off h => by cases h⟩
+    intro cs h
+    cases h
+    refine ⟨rfl, ?_⟩
+    have := stream_good blk m hm hblk (src.length + 1) src [] 0 hs (by omega)
+    simpa [asciiStream, decodeStream] using this
+  · rw [decode_illegal g b r hg hb]
+    constructor
+    · intro cs h; cases h
+    intro cs off h
+    cases h
+    obtain ⟨k, hk1, hk2, hk3⟩ := stream_bad blk m hm hblk ((g ++ b :: r).length + 1) g b r [] 0 hg hb (by simp; omega)
+    refine ⟨by simp, by simp, by simpa [List.getD_eq_getElem?_getD] using hb, k, hk1, hk2, ?_⟩
+    rw [List.take_append_of_le_length hk1]
+    simpa [asciiStream, decodeStream] using hk3
+
+/-- encode ∘ decode = id on every US-ASCII string: `transcodeTo` writes the code points as bytes (for
+either unrepresentable-option), and those bytes decode — in one call with enough room, and as a stream
+with any block size — to the same string. -/
+theorem ascii_roundtrip (cs : List Nat) (h : ∀ c ∈ cs, c < 0x80) (m mb blk m' : Nat) (hm : cs.length ≤ m)
+    (hmb : cs.length ≤ mb) (hblk : 1 ≤ blk) (hm' : 1 ≤ m') (thr : Bool) :
+    XV.Spec.Ascii.encode cs = some cs ∧ asciiTo cs mb thr = .ok cs [] cs.length ∧
+    asciiFrom cs m = .ok cs (List.replicate cs.length 1) cs.length ∧ asciiStream blk m' cs = .done cs := by
+  have hl : AllLegal cs := h
+  refine ⟨?_, ?_, ?_, ?_⟩
+  · unfold XV.Spec.Ascii.encode
+    have : cs.all (· < 0x80) = true := by simpa using h
+    simp [this]
+  · rw [asciiTo_eq, List.take_of_length_le hmb, Nat.min_eq_left hmb, narrow_go_good _ _ _ _ _ h]; simp
+  · rw [block_good cs m hl, Nat.min_eq_right hm, List.take_length]
+  · exact ((ascii_decode_exact cs blk m' hblk hm').1 cs (decode_legal cs hl)).2
+
+/-- What `transcodeTo` does with a unit that US-ASCII cannot represent (≥ 0x80), as the code has it:
+with UnRep_Throw the call throws Trans_Unrepresentable (whatever precedes the unit within the call); with
+UnRep_RepChar every such unit becomes the substitute 0x1A and everything else is written unchanged.
+`canTranscodeTo` is exactly the Spec's legality. -/
+theorem ascii_unrepresentable (g : List Nat) (c : Nat) (r : List Nat) (mb : Nat) (hg : ∀ x ∈ g, x < 0x80) (hc : ¬ c < 0x80)
+    (hmb : g.length < mb) (us : List Nat) :
+    asciiTo (g ++ c :: r) mb true = .exc "Trans_Unrepresentable" ∧
+    asciiTo us mb false = .ok ((us.take mb).map (fun u => if u < 0x80 then u else 0x1A)) [] (min us.length mb) ∧
+    (∀ u, asciiCan u = true ↔ legal u) ∧ XV.Spec.Ascii.encode (g ++ c :: r) = none := by
+  refine ⟨?_, ?_, ?_, ?_⟩
+  · obtain ⟨k, hk⟩ : ∃ k, mb = g.length + (k + 1) := ⟨mb - g.length - 1, by omega⟩
+    rw [asciiTo_eq, hk, List.take_length_add_append, List.take_succ_cons]
+    exact narrow_go_throw 128 _ g [] c _ hg hc
+  · rw [asciiTo_eq, narrow_go_rep]; simp
+  · intro u; simp [asciiCan, legal]
+  · unfold XV.Spec.Ascii.encode
+    have : (g ++ c :: r).all (· < 0x80) = false := by
+      rw [List.all_eq_false]; exact ⟨c, by simp, by simpa using hc⟩
+    simp [this]
+
+/-- The reader model of C04 (`XV.Model.Reader.decAscii`, the block function `XMLReader::xcodeMoreChars` is
+proved against) is this same function: what C04 proves about the reader's US-ASCII pipeline rests on the
+block semantics stated above. -/
+theorem ascii_model_eq_reader_model (src : List Nat) (m : Nat) :
+    XV.Lemmas.AsciiReader.ofReader (XV.Model.Reader.decAscii src m) = asciiFrom src m :=
+  XV.Lemmas.AsciiReader.decAscii_eq_asciiFrom src m
+end Ascii
+
 /-! ### encoding detection (XML 1.0 Appendix F) -/
 section Probe
 open XV.Model.Recognizer XV.Gen.Recognizer XV.Lemmas.Recognizer
@@ -209,5 +340,19 @@ example : transcodeFrom [0xED, 0xA0, 0x80] 8 = .exc .irregular3 := by decide
 
 example : XV.Model.ByteCodec.ucs4To true (utf16All [0x41, 0x1F600]) 8 = .ok [0, 0, 0, 0x41, 0, 1, 0xF6, 0] [] 3 := by decide
 example : XV.Model.Recognizer.basicEncodingProbe [0xFF, 0xFE, 0x3C, 0x00] = .UTF_16L := by decide
+
+section AsciiExamples
+open XV.Model.ByteCodec XV.Model.CodecStream
+
+-- US-ASCII: a bad byte at index 40 of a block is not thrown by that call (deferred) but by the next one
+example : asciiFrom (List.replicate 40 0x41 ++ [0xE9, 0x42]) 64 = .ok (List.replicate 40 0x41) (List.replicate 40 1) 40 := by decide
+example : asciiFrom ([0xE9, 0x42]) 64 = .exc "Trans_Unrepresentable" := by decide
+example : asciiStream 64 64 (List.replicate 40 0x41 ++ [0xE9, 0x42]) = .exc (List.replicate 40 0x41) 40 "Trans_Unrepresentable" ∧
+    XV.Spec.Ascii.decode (List.replicate 40 0x41 ++ [0xE9, 0x42]) = (List.replicate 40 0x41, some 40) := by decide
+example : asciiStream 64 64 (List.replicate 20 0x41 ++ [0x80]) = .exc [] 0 "Trans_Unrepresentable" ∧
+    asciiStream 16 7 (List.replicate 20 0x41 ++ [0x80]) = .exc (List.replicate 14 0x41) 14 "Trans_Unrepresentable" := by decide
+example : asciiStream 16 5 [0x3C, 0x61, 0x3E, 0x7F, 0x00, 0x41, 0x42] = .done [0x3C, 0x61, 0x3E, 0x7F, 0x00, 0x41, 0x42] := by decide
+example : asciiTo [0x41, 0xE9, 0x42] 8 false = .ok [0x41, 0x1A, 0x42] [] 3 ∧ asciiTo [0x41, 0xE9, 0x42] 8 true = .exc "Trans_Unrepresentable" := by decide
+end AsciiExamples
 
 end XV.Props.C05
